@@ -919,6 +919,9 @@ Qed.
 Lemma vis_map_dn q : vis vis_str (map Dn q) = map ODn q.
 Proof. induction q; simpl; auto. unfold vis in *. simpl. rewrite IHq. reflexivity. Qed.
 
+Lemma exec_mark_unclean {S} n (p : prog S) kb o k e : exec (PMark n p) kb = (o, k, e) -> clean e = false.
+Proof. simpl. destruct (exec p kb) as [[o' k'] e']. intros E; inversion E; subst. reflexivity. Qed.
+
 (* the hand-over at the end of the handshake *)
 Lemma handover_exec s kb o k e : hring s -> exec (http_handover s) kb = (o, k, e) ->
   exists s' ret, o = Some (s', ret) /\ 0 <= ret /\ h_state s' = HT_CONNECTED /\ h_base s' = true /\ hinv s' /\
@@ -940,11 +943,460 @@ Proof.
     destruct (_ <? _).
     - destruct (mreadn _ _ _); [|constructor]. destruct (mreadn _ _ _); [|constructor]. apply FIN.
     - destruct (mreadn _ _ _); [|constructor]. apply FIN. }
-  destruct P' as (P1 & P2 & P3). repeat split; auto.
-  - exact (leaves_exec hP _ LEAVES _ _ _ _ _ E P1).
+  destruct P' as (P1 & P2 & P3).
+  assert (HI : hinv s') by exact (leaves_exec hP _ LEAVES _ _ _ _ _ E P1).
+  split; [exact P1|]. split; [exact P2|]. split; [exact P3|]. split; [exact HI|]. split.
   - intros F0. unfold http_handover in E. cbv zeta in E. rewrite F0 in E. change (0 <? 0) with false in E. cbv iota in E.
     rewrite exec_flush_queue in E. simpl in E. inversion E; subst. rewrite vis_app, vis_map_dn. simpl. rewrite app_nil_r. reflexivity.
   - intros FP. unfold http_handover in E. cbv zeta in E. destruct (Z.ltb_spec 0 (h_fill s)); [|lia].
-    simpl in E. match type of E with (let '(_, _, _) := ?X in _) = _ => destruct X as [[o' k'] e'] end.
-    inversion E; subst. reflexivity.
+    eapply exec_mark_unclean; eauto.
+Qed.
+
+Lemma Uof_step s st n cl' : hring s -> 0 <= n <= h_fill s ->
+  Uof (with_ring s st ((h_pos s + n) mod lenZ (h_buf s)) (h_fill s - n) cl') = dropZ n (Uof s).
+Proof.
+  intros R N. destruct (hring_facts s R) as (A & B & C & D & E & F).
+  unfold Uof, with_ring; simpl. apply ring_consume; auto.
+Qed.
+
+Lemma exec_done {S} (s : S) r kb : exec (PDone s r) kb = (Some (s, r), kb, [Ret r]).
+Proof. reflexivity. Qed.
+
+(** a clean run of the concrete retry loop is the abstract loop on the ring's content *)
+Lemma parse_conc : forall fuel s kb o k e, hring s -> suff fuel (h_state s) (Uof s) ->
+  exec (http_parse fuel s) kb = (o, k, e) -> clean e = true ->
+  k = kb /\ exists r, aparse fuel (h_state s) (h_cl s) (Uof s) = (r, false) /\
+    match r with
+    | ANeed st' cl' U' => exists s', o = Some (s', 0) /\ hring s' /\ h_state s' = st' /\ h_cl s' = cl' /\ Uof s' = U' /\
+                                      h_queue s' = h_queue s /\ h_buf s' = h_buf s /\ vis vis_str e = []
+    | AErr => exists s', o = Some (s', -1) /\ vis vis_str e = []
+    | AConn c rest => rest = [] /\ exists s' ret, o = Some (s', ret) /\ 0 <= ret /\ h_state s' = HT_CONNECTED /\
+                                      h_base s' = true /\ hinv s' /\ vis vis_str e = map ODn (h_queue s)
+    | AFuel => False
+    end.
+Proof.
+  induction fuel as [|fuel IH]; intros s kb o k e R SF E CL.
+  { unfold suff in SF. lia. }
+  split; [exact (readfree_exec _ (readfree_parse _ s) _ _ _ _ E)|].
+  destruct (hring_facts s R) as (A & B & C & D & Bs & F).
+  pose proof (lenZ_length (Uof s)) as LLU.
+  assert (VW : forall p, 0 <= p < h_fill s -> gb (h_buf s) (lenZ (h_buf s)) (h_pos s) p = gb (Uof s ++ [0]) (h_fill s + 1) 0 p)
+    by (intros p Hp; rewrite (hring_view s R p Hp), F; reflexivity).
+  assert (LR : lenZ (Uof s ++ [0]) = h_fill s + 1) by (rewrite lring_len; lia).
+  assert (LP : 0 < h_fill s + 1) by lia.
+  unfold suff in SF.
+  simpl http_parse in E. cbv zeta in E.
+  destruct (Z.eq_dec (h_state s) HT_INIT) as [S0|S0].
+  { rewrite S0 in *. rewrite rank_init in SF. change (HT_INIT =? HT_INIT) with true in E. cbv iota in E.
+    rewrite aparse_S_init. unfold l_init. rewrite F.
+    rewrite (parse_init_same (h_buf s) (lenZ (h_buf s)) (h_pos s) (Uof s ++ [0]) (h_fill s + 1) 0 (h_fill s)
+               A eq_refl LP LR VW) in E.
+    pose proof (l_init_ok (Uof s)) as K. unfold l_init in K. rewrite F in K.
+    destruct (parse_init (Uof s ++ [0]) (h_fill s + 1) 0 (h_fill s)) as [| | |n]; try contradiction.
+    - rewrite exec_done in E. inversion E; subst. eexists. split; [reflexivity|].
+      exists s. split; [reflexivity|]. split; [exact R|]. split; [exact S0|]. repeat (split; [reflexivity|]). reflexivity.
+    - unfold http_error in E. rewrite exec_done in E. inversion E; subst. eexists. split; [reflexivity|]. eexists. split; reflexivity.
+    - assert (R1 := hring_step s HT_HEADERS n 0 R ltac:(lia) ltac:(lia)).
+      assert (U1 := Uof_step s HT_HEADERS n 0 R ltac:(lia)).
+      destruct (IH _ _ _ _ _ R1 ltac:(unfold suff; rewrite U1; simpl h_state; rewrite rank_headers, length_dropZ by lia; lia) E CL)
+        as [_ (r & AP & M)].
+      simpl h_state in AP. simpl h_cl in AP. rewrite U1 in AP.
+      exists r. split; [exact AP|].
+      destruct r as [st' cl' U'| |c rest|]; auto. }
+  destruct (Z.eq_dec (h_state s) HT_HEADERS) as [S1|S1].
+  { rewrite S1 in *. rewrite rank_headers in SF.
+    change (HT_HEADERS =? HT_INIT) with false in E. change (HT_HEADERS =? HT_HEADERS) with true in E. cbv iota in E.
+    rewrite aparse_S_headers. unfold l_header. rewrite F.
+    destruct (parse_header (h_buf s) (lenZ (h_buf s)) (h_pos s) (h_fill s) (h_cl s)) as [[pr cl'] stale] eqn:PH.
+    destruct stale.
+    { exfalso. unfold mark_if in E. rewrite (exec_mark_unclean _ _ _ _ _ _ E) in CL. discriminate. }
+    unfold mark_if in E.
+    assert (PH' := parse_header_same (h_buf s) (lenZ (h_buf s)) (h_pos s) (Uof s ++ [0]) (h_fill s + 1) 0 (h_fill s)
+                     A eq_refl VW _ _ _ PH).
+    rewrite PH'.
+    pose proof (l_header_ok (Uof s) (h_cl s) D) as K. unfold l_header in K. rewrite F, PH' in K.
+    destruct pr as [| | |n]; try contradiction.
+    - rewrite exec_done in E. inversion E; subst. eexists. split; [reflexivity|].
+      eexists. split; [reflexivity|].
+      assert (R' : hring (with_ring s HT_HEADERS (h_pos s) (h_fill s) cl')).
+      { destruct R as ((P1 & P2 & P3 & P4 & P5) & Q1 & Q2 & Q3). unfold hring, hinv, with_ring; simpl.
+        repeat split; auto; try lia; try (intros X; discriminate X). }
+      split; [exact R'|]. repeat (split; [reflexivity|]). reflexivity.
+    - unfold http_error in E. rewrite exec_done in E. inversion E; subst. eexists. split; [reflexivity|]. eexists. split; reflexivity.
+    - destruct K as [K1 K2].
+      set (st1 := if n =? 2 then HT_BODY else HT_HEADERS) in *.
+      assert (R1 := hring_step s st1 n cl' R ltac:(lia) K2).
+      assert (U1 := Uof_step s st1 n cl' R ltac:(lia)).
+      assert (SF1 : suff fuel (h_state (with_ring s st1 ((h_pos s + n) mod lenZ (h_buf s)) (h_fill s - n) cl'))
+                         (Uof (with_ring s st1 ((h_pos s + n) mod lenZ (h_buf s)) (h_fill s - n) cl'))).
+      { unfold suff. rewrite U1. simpl h_state. rewrite length_dropZ by lia. unfold st1.
+        destruct (n =? 2); rewrite ?rank_body, ?rank_headers; lia. }
+      destruct (IH _ _ _ _ _ R1 SF1 E CL) as [_ (r & AP & M)].
+      simpl h_state in AP. simpl h_cl in AP. rewrite U1 in AP. rewrite AP.
+      exists r. split; [reflexivity|].
+      destruct r as [st' c' U'| |c rest|]; auto. }
+  destruct (Z.eq_dec (h_state s) HT_BODY) as [S2|S2].
+  { rewrite S2 in *. rewrite rank_body in SF.
+    change (HT_BODY =? HT_INIT) with false in E. change (HT_BODY =? HT_HEADERS) with false in E.
+    change (HT_BODY =? HT_BODY) with true in E. cbv iota in E.
+    simpl aparse.
+    change (HT_BODY =? HT_INIT) with false. change (HT_BODY =? HT_HEADERS) with false. change (HT_BODY =? HT_BODY) with true. cbv iota.
+    rewrite F.
+    destruct (Z.eqb_spec (h_cl s) 0) as [C0|C0].
+    - assert (R1 : hring (with_ring s HT_CONNECTED (h_pos s) (h_fill s) (h_cl s))).
+      { destruct R as ((P1 & P2 & P3 & P4 & P5) & Q1 & Q2 & Q3). unfold hring, hinv, with_ring; simpl. repeat split; auto; lia. }
+      assert (U1 : Uof (with_ring s HT_CONNECTED (h_pos s) (h_fill s) (h_cl s)) = Uof s) by reflexivity.
+      destruct (IH _ _ _ _ _ R1 ltac:(unfold suff; rewrite U1; simpl h_state; rewrite rank_connected; lia) E CL) as [_ (r & AP & M)].
+      simpl h_state in AP. simpl h_cl in AP. rewrite U1 in AP. exists r. split; [exact AP|].
+      destruct r as [st' c' U'| |c rest|]; auto.
+    - destruct (Z.eqb_spec (h_fill s) 0) as [F0|F0].
+      + rewrite exec_done in E. inversion E; subst. eexists. split; [reflexivity|]. exists s.
+        split; [reflexivity|]. split; [exact R|]. split; [exact S2|]. repeat (split; [reflexivity|]). reflexivity.
+      + set (c := Z.min (h_cl s) (h_fill s)) in *.
+        assert (Cc : 1 <= c <= h_fill s) by (unfold c; lia).
+        assert (R1 := hring_step s HT_BODY c (h_cl s - c) R ltac:(lia) ltac:(unfold c; lia)).
+        assert (U1 := Uof_step s HT_BODY c (h_cl s - c) R ltac:(lia)).
+        destruct (IH _ _ _ _ _ R1 ltac:(unfold suff; rewrite U1; simpl h_state; rewrite rank_body, length_dropZ by lia; lia) E CL)
+          as [_ (r & AP & M)].
+        simpl h_state in AP. simpl h_cl in AP. rewrite U1 in AP. exists r. split; [exact AP|].
+        destruct r as [st' c' U'| |c0 rest|]; auto. }
+  rewrite aparse_S_other by auto.
+  destruct (Z.eqb_spec (h_state s) HT_INIT); [contradiction|]. destruct (Z.eqb_spec (h_state s) HT_HEADERS); [contradiction|].
+  destruct (Z.eqb_spec (h_state s) HT_BODY); [contradiction|].
+  destruct (Z.eqb_spec (h_state s) HT_CONNECTED) as [S3|S3].
+  - destruct (handover_exec s kb o k e R E) as (s' & ret & O & R0 & ST & BS & HI & V0 & VC).
+    eexists. split; [reflexivity|].
+    assert (F0 : h_fill s = 0).
+    { destruct (Z.eq_dec (h_fill s) 0); auto. rewrite VC in CL by lia. discriminate. }
+    split; [apply lenZ_nil; lia|]. exists s', ret. split; [exact O|]. split; [exact R0|]. split; [exact ST|]. split; [exact BS|]. split; [exact HI|]. apply V0. exact F0.
+  - unfold http_error in E. rewrite exec_done in E. inversion E; subst. eexists. split; [reflexivity|]. eexists. split; reflexivity.
+Qed.
+
+(** * Stage D: calls, readable events, runs *)
+Definition hs_inv (s : hst) : Prop :=
+  hinv s /\ h_base s = true /\ (h_state s = HT_INIT \/ h_state s = HT_HEADERS \/ h_state s = HT_BODY).
+
+Lemma Uof_len s : hinv s -> lenZ (Uof s) = h_fill s.
+Proof.
+  intros (P & F & PL & C & CB). unfold Uof. apply lenZ_ring_u; lia.
+Qed.
+
+Lemma aparse_need_state : forall f st cl U st' cl' U' b, aparse f st cl U = (ANeed st' cl' U', b) ->
+  st' = HT_INIT \/ st' = HT_HEADERS \/ st' = HT_BODY.
+Proof.
+  induction f as [|f IH]; intros st cl U st' cl' U' b E; simpl in E; [discriminate|].
+  destruct (Z.eqb_spec st HT_INIT).
+  { destruct (l_init U); try discriminate; [inversion E; subst; auto | eapply IH; eauto]. }
+  destruct (Z.eqb_spec st HT_HEADERS).
+  { destruct (l_header U cl) as [[pr c] s0]. destruct pr; try discriminate; [inversion E; subst; auto|].
+    destruct (aparse f _ c _) as [r s2] eqn:A. inversion E; subst. eapply IH; eauto. }
+  destruct (Z.eqb_spec st HT_BODY).
+  { destruct (cl =? 0); [eapply IH; eauto|]. destruct (lenZ U =? 0); [inversion E; subst; auto | eapply IH; eauto]. }
+  destruct (st =? HT_CONNECTED); discriminate.
+Qed.
+
+(** one call of recv_messages in a handshake state: the bytes it reads are appended to the logical
+    content and the abstract loop decides *)
+Lemma call_conc G s kb o k e : hs_inv s -> kb <> [] ->
+  exec (http_body G s) kb = (o, k, e) -> clean e = true ->
+  exists d, kb = d ++ k /\ d <> [] /\
+  exists F r, suff F (h_state s) (Uof s ++ d) /\ aparse F (h_state s) (h_cl s) (Uof s ++ d) = (r, false) /\
+    match r with
+    | ANeed st' cl' U' => exists s', o = Some (s', 0) /\ hs_inv s' /\ h_state s' = st' /\ h_cl s' = cl' /\ Uof s' = U' /\
+                                      h_queue s' = h_queue s /\ vis vis_str e = []
+    | AErr => exists s', o = Some (s', -1) /\ vis vis_str e = []
+    | AConn c rest => rest = [] /\ exists s' ret, o = Some (s', ret) /\ 0 <= ret /\ h_state s' = HT_CONNECTED /\
+                                      h_base s' = true /\ hinv s' /\ vis vis_str e = map ODn (h_queue s)
+    | AFuel => False
+    end.
+Proof.
+  intros (HI & Bs & ST) NK E CL. pose proof HI as (P & F & PL & C & CB).
+  pose proof (lenZ_pos kb NK) as Lk.
+  unfold http_body in E.
+  destruct (Z.eqb_spec (h_state s) HT_CONNECTED) as [SC|SC].
+  { exfalso. destruct ST as [X|[X|X]]; rewrite X in SC; discriminate. }
+  cbv zeta in E. rewrite Bs in E.
+  set (L0 := lenZ (h_buf s)) in *.
+  set (grown := h_fill s =? L0) in *.
+  set (L := if grown then Z.max (L0 * 2) 1024 else L0) in *.
+  set (buf := if grown then h_buf s ++ repZ G (Z.to_nat (L - L0)) else h_buf s) in *.
+  assert (LL : L0 <= L /\ 0 < L /\ h_fill s < L) by (unfold L, grown; destruct (Z.eqb_spec (h_fill s) L0); lia).
+  assert (LB : lenZ buf = L).
+  { unfold buf, grown, L. destruct (Z.eqb_spec (h_fill s) L0); auto. rewrite lenZ_app, lenZ_repZ. fold L0. lia. }
+  (* growing while wrapped is tagged *)
+  destruct (grown && (L0 <? h_pos s + h_fill s)) eqn:GW.
+  { exfalso. unfold mark_if in E. rewrite (exec_mark_unclean _ _ _ _ _ _ E) in CL. discriminate. }
+  unfold mark_if in E.
+  assert (RV : ring_valid L (h_pos s) (h_fill s) = true) by (apply ring_valid_spec; lia).
+  rewrite RV in E. change (negb true) with false in E. cbv iota in E.
+  assert (PL' : h_pos s < L) by lia.
+  (* the content is unchanged by the (unwrapped) growth *)
+  assert (U0 : ring_u buf (h_pos s) (h_fill s) = Uof s).
+  { unfold buf, Uof. destruct grown eqn:GR; auto. simpl in GW. apply Z.ltb_ge in GW. apply ring_grow; lia. }
+  set (wrapped := L <? h_pos s + h_fill s) in *.
+  set (off0 := if wrapped then (h_pos s + h_fill s) mod L else h_pos s + h_fill s) in *.
+  set (size0 := if wrapped then L - h_fill s else L - (h_pos s + h_fill s)) in *.
+  set (size1 := if wrapped then 0 else h_pos s) in *.
+  assert (GEO : 0 <= off0 /\ 0 <= size0 /\ off0 + size0 <= L /\ 0 <= size1 <= L /\ size0 + size1 = L - h_fill s).
+  { unfold off0, size0, size1, wrapped. destruct (Z.ltb_spec L (h_pos s + h_fill s)).
+    - assert (E0 : (h_pos s + h_fill s) mod L = h_pos s + h_fill s - L) by (symmetry; apply Z.mod_unique with 1; lia).
+      rewrite E0. lia.
+    - lia. }
+  rewrite exec_read in E.
+  set (req := size0 + size1) in *.
+  set (d := takeZ req kb) in *. set (rest := dropZ req kb) in *.
+  assert (Ld : 1 <= lenZ d <= req) by (unfold d; rewrite lenZ_takeZ; lia).
+  destruct (Z.eqb_spec (lenZ d) 0); [lia|].
+  assert (T0 : lenZ (takeZ size0 d) <= size0) by (rewrite lenZ_takeZ; lia).
+  assert (T1 : lenZ (dropZ size0 d) <= size1) by (rewrite lenZ_dropZ; lia).
+  pose proof (lenZ_nonneg (takeZ size0 d)). pose proof (lenZ_nonneg (dropZ size0 d)).
+  destruct (mwrite buf off0 (takeZ size0 d)) as [b1|] eqn:W1.
+  2:{ rewrite mwrite_some in W1 by lia. discriminate. }
+  assert (L1 : lenZ b1 = L) by (rewrite (mwrite_len _ _ _ _ W1); exact LB).
+  destruct (mwrite b1 0 (dropZ size0 d)) as [b2|] eqn:W2.
+  2:{ rewrite mwrite_some in W2 by lia. discriminate. }
+  assert (L2 : lenZ b2 = L) by (rewrite (mwrite_len _ _ _ _ W2); exact L1).
+  assert (RV' : ring_valid L (h_pos s) (h_fill s + lenZ d) = true) by (apply ring_valid_spec; lia).
+  rewrite RV' in E. change (negb true) with false in E. cbv iota in E.
+  set (s2 := {| h_state := h_state s; h_base := true; h_queue := h_queue s; h_buf := b2;
+                h_pos := h_pos s; h_fill := h_fill s + lenZ d; h_cl := h_cl s |}) in *.
+  assert (R2 : hring s2).
+  { unfold hring, hinv, s2; simpl. rewrite L2. repeat split; try lia; auto. }
+  assert (U2 : Uof s2 = Uof s ++ d).
+  { unfold Uof at 1. unfold s2; simpl. rewrite <- U0.
+    apply (ring_write buf L (h_pos s) (h_fill s) d b1 b2 LB ltac:(lia) ltac:(lia) ltac:(lia) W1 W2). }
+  set (fuel := Datatypes.S (Datatypes.S (Datatypes.S (Datatypes.S (Datatypes.S (Z.to_nat (h_fill s + lenZ d))))))) in *.
+  destruct (exec (http_parse fuel s2) rest) as [[o' k'] e'] eqn:EP.
+  inversion E; subst o' k' e. clear E.
+  simpl in CL.
+  assert (SF : suff fuel (h_state s2) (Uof s2)).
+  { unfold suff. pose proof (hring_facts s2 R2) as (_ & _ & _ & _ & _ & X). pose proof (lenZ_length (Uof s2)).
+    pose proof (rank_le (h_state s2)). unfold fuel. simpl h_fill in X. lia. }
+  destruct (parse_conc fuel s2 rest o k e' R2 SF EP CL) as [KK (r & AP & M)].
+  subst k. exists d. split; [unfold d, rest; symmetry; apply takeZ_dropZ|].
+  split; [intros X; rewrite X, lenZ_nil0 in Ld; lia|].
+  exists fuel, r. rewrite <- U2. split; [exact SF|]. split; [exact AP|].
+  destruct r as [st' cl' U'| |c rs|]; auto.
+  - destruct M as (s' & O & R' & S1 & S2 & S3 & S4 & S5 & S6). exists s'.
+    split; [exact O|]. split.
+    { split; [exact (proj1 R')|]. split; [exact (proj2 (proj2 (proj2 R')))|]. rewrite S1. eapply aparse_need_state; eauto. }
+    repeat (split; auto).
+Qed.
+
+Lemma aeq_sym st c1 c2 U : aeq st c1 c2 U -> aeq st c2 c1 U.
+Proof. intros [E|X]; [left; auto | right; auto]. Qed.
+Lemma aeq_trans st c1 c2 c3 U : aeq st c1 c2 U -> aeq st c2 c3 U -> aeq st c1 c3 U.
+Proof. intros [E|X] [E'|X']; subst; unfold aeq; auto. Qed.
+Lemma aeq_ext st c1 c2 U V : aeq st c1 c2 U -> aeq st c1 c2 (U ++ V).
+Proof. intros [E|[X Y]]; [left; auto | right; split; auto; apply cli_ext; auto]. Qed.
+Lemma rrel_sym a b : rrel a b -> rrel b a.
+Proof.
+  destruct a as [[s1 c1 U1| |c1 x1|] b1]; destruct b as [[s2 c2 U2| |c2 x2|] b2]; unfold rrel; simpl; intros [E M]; try contradiction; split; auto.
+  - destruct M as (A & B & C). subst. repeat split; auto. apply aeq_sym; auto.
+  - destruct M; subst; auto.
+Qed.
+Lemma rrel_trans a b c : rrel a b -> rrel b c -> rrel a c.
+Proof.
+  destruct a as [[s1 c1 U1| |c1 x1|] b1]; destruct b as [[s2 c2 U2| |c2 x2|] b2]; destruct c as [[s3 c3 U3| |c3 x3|] b3];
+    unfold rrel; simpl; intros [E M] [E' M']; try contradiction; (split; [congruence|]); auto.
+  - destruct M as (A & B & C). destruct M' as (A' & B' & C'). subst. repeat split; auto. eapply aeq_trans; eauto.
+  - destruct M, M'; subst; auto.
+Qed.
+
+(** what a concrete result must look like for an abstract outcome [r] *)
+Definition spec_ok (q : list (list Z)) (r : ares) (w : wst hst) (e : list ev) : Prop :=
+  match r with
+  | ANeed st' cl' U' => dead w = 0 /\ hs_inv (inner w) /\ h_state (inner w) = st' /\ Uof (inner w) = U' /\
+                        aeq st' (h_cl (inner w)) cl' U' /\ h_queue (inner w) = q /\ vis vis_str e = []
+  | AErr => dead w = 1 /\ vis vis_str e = []
+  | AConn c rest => dead w = 0 /\ h_state (inner w) = HT_CONNECTED /\ h_base (inner w) = true /\ hinv (inner w) /\
+                    vis vis_str e = map ODn q ++ map OByte rest
+  | AFuel => False
+  end.
+
+Lemma spec_ok_rrel q r r' w e : rrel (r, false) (r', false) -> spec_ok q r' w e -> spec_ok q r w e.
+Proof.
+  unfold rrel; simpl. intros [_ M].
+  destruct r as [s1 c1 U1| |c1 x1|]; destruct r' as [s2 c2 U2| |c2 x2|]; try contradiction; simpl; auto.
+  - destruct M as (A & B & C). subst. intros (D1 & D2 & D3 & D4 & D5 & D6 & D7).
+    refine (conj D1 (conj D2 (conj D3 (conj D4 (conj _ (conj D6 D7)))))).
+    eapply aeq_trans; eauto. apply aeq_sym; auto.
+  - destruct M; subst; auto.
+Qed.
+
+Definition big (st : Z) (W : list Z) : nat := Datatypes.S (length W + rank st).
+Lemma big_suff st W : suff (big st W) st W.
+Proof. unfold suff, big. lia. Qed.
+
+Lemma http_connected_transparent G s : h_state s = HT_CONNECTED -> h_base s = true -> transparent (http_body G) vis_str s.
+Proof. intros H B. apply passthrough_transparent. unfold http_body. rewrite H, B. reflexivity. Qed.
+
+(** a readable event in a handshake state *)
+Lemma drain_conc G : forall n kb, (length kb <= n)%nat -> kb <> [] -> forall s fu w e,
+  hs_inv s -> (length kb <= fu)%nat -> drain (http_body G) fu s kb = (w, e) -> clean e = true ->
+  forall F, suff F (h_state s) (Uof s ++ kb) ->
+  exists r0, aparse F (h_state s) (h_cl s) (Uof s ++ kb) = (r0, false) /\ spec_ok (h_queue s) r0 w e.
+Proof.
+  induction n as [|n IH]; intros kb Ln NK s fu w e HS LF D CL F SF.
+  { destruct kb; [congruence | simpl in Ln; lia]. }
+  destruct fu as [|fu]; [destruct kb; [congruence | simpl in LF; lia]|].
+  rewrite drain_step in D by exact NK.
+  destruct (exec (http_body G s) kb) as [[o k] e1] eqn:E1.
+  assert (C1 : clean e1 = true).
+  { destruct o as [[s1 r]|]; [|inversion D; subst; auto].
+    destruct (r <? 0); [inversion D; subst; auto|].
+    destruct (lenZ k =? lenZ kb); [inversion D; subst; rewrite clean_app in CL; apply andb_true_iff in CL; tauto|].
+    destruct (drain (http_body G) fu s1 k); inversion D; subst. rewrite clean_app in CL; apply andb_true_iff in CL; tauto. }
+  destruct (call_conc G s kb o k e1 HS NK E1 C1) as (d & KB & ND & F1 & r1 & SF1 & AP1 & M).
+  pose proof (lenZ_pos d ND) as Ld.
+  assert (NP : (lenZ k =? lenZ kb) = false).
+  { apply Z.eqb_neq. rewrite KB, lenZ_app. lia. }
+  assert (HSc : 0 <= h_cl s) by (destruct HS as ((_ & _ & _ & X & _) & _); exact X).
+  assert (LK : (length k < length kb)%nat).
+  { rewrite KB, app_length. pose proof (lenZ_length d). lia. }
+  rewrite KB in SF. rewrite app_assoc in SF.
+  destruct r1 as [st' cl' U'| |c rs|]; try contradiction.
+  - (* the parser wants more *)
+    destruct M as (s' & O & HS' & S1 & S2 & S3 & S4 & V1). subst o.
+    change (0 <? 0) with false in D. cbv iota in D. rewrite NP in D.
+    destruct (drain (http_body G) fu s' k) as [w' e2] eqn:D2. inversion D; subst w' e. clear D.
+    rewrite clean_app in CL. apply andb_true_iff in CL as [_ C2].
+    rewrite KB. rewrite app_assoc.
+    pose proof (aparse_stable F1 _ _ _ _ HSc AP1 ltac:(discriminate) k F SF) as ST. simpl in ST.
+    destruct k as [|x k'].
+    + (* nothing left: the event is over *)
+      rewrite drain_nil in D2. inversion D2; subst w e2.
+      specialize (ST (big st' (U' ++ [])) (big_suff _ _)).
+      rewrite app_nil_r in *.
+      assert (Cc' : 0 <= cl').
+      { subst cl'. destruct HS' as ((_ & _ & _ & X & _) & _); exact X. }
+      rewrite (aparse_fuel_eq F F1) by auto. rewrite AP1. eexists. split; [reflexivity|].
+      simpl. rewrite S4, app_nil_r. refine (conj eq_refl (conj HS' (conj S1 (conj S3 (conj _ (conj eq_refl V1)))))). left; auto.
+    + assert (NK' : x :: k' <> []) by discriminate.
+      assert (HSc' : 0 <= h_cl s') by (destruct HS' as ((_ & _ & _ & X & _) & _); exact X).
+      destruct (IH (x :: k') ltac:(lia) NK' s' fu w e2 HS' ltac:(lia) D2 C2 (big st' (U' ++ x :: k'))
+                  ltac:(rewrite S1, S3; apply big_suff)) as (r0' & AP' & OK').
+      rewrite S1, S2, S3 in AP'.
+      specialize (ST (big st' (U' ++ x :: k')) (big_suff _ _)). rewrite AP' in ST.
+      destruct (aparse F (h_state s) (h_cl s) ((Uof s ++ d) ++ x :: k')) as [r0 b0] eqn:AP0.
+      assert (b0 = false) by (destruct ST as [X _]; exact X). subst b0.
+      exists r0. split; [reflexivity|].
+      apply (spec_ok_rrel _ r0 r0' _ _ ST).
+      rewrite S4 in OK'.
+      destruct r0' as [a1 a2 a3| |a1 a2|]; simpl in *; auto.
+      * destruct OK' as (B1 & B2 & B3 & B4 & B5 & B6 & B7).
+        refine (conj B1 (conj B2 (conj B3 (conj B4 (conj B5 (conj B6 _)))))). rewrite vis_app, V1, B7. reflexivity.
+      * destruct OK' as (B1 & B7). split; auto. rewrite vis_app, V1, B7. reflexivity.
+      * destruct OK' as (B1 & B2 & B3 & B4 & B7).
+        refine (conj B1 (conj B2 (conj B3 (conj B4 _)))). rewrite vis_app, V1, B7. reflexivity.
+  - (* the proxy refused / the reply is malformed *)
+    destruct M as (s' & O & V1). subst o. change (-1 <? 0) with true in D. cbv iota in D. inversion D; subst w e.
+    rewrite KB, app_assoc.
+    pose proof (aparse_stable F1 _ _ _ _ HSc AP1 ltac:(discriminate) k F SF) as ST. simpl in ST.
+    rewrite ST. eexists. split; [reflexivity|]. simpl. auto.
+  - (* connected, nothing left over in the ring: the rest of the chunk is tunnelled *)
+    destruct M as (RS & s' & ret & O & R0 & SC & BS & HI & V1). subst o rs.
+    destruct (Z.ltb_spec ret 0); [lia|]. rewrite NP in D.
+    destruct (drain (http_body G) fu s' k) as [w' e2] eqn:D2. inversion D; subst w' e. clear D.
+    destruct (http_connected_transparent G s' SC BS fu k w e2 ltac:(lia) D2) as [-> V2].
+    rewrite KB, app_assoc.
+    pose proof (aparse_stable F1 _ _ _ _ HSc AP1 ltac:(discriminate) k F SF) as ST. simpl in ST.
+    rewrite ST. eexists. split; [reflexivity|]. simpl.
+    refine (conj eq_refl (conj SC (conj BS (conj HI _)))).
+    rewrite vis_app, V1, V2. reflexivity.
+Qed.
+
+(** * the specification: what a stream means, independent of any chunking *)
+Definition http_start (q : list (list Z)) : hst :=
+  {| h_state := HT_INIT; h_base := true; h_queue := q; h_buf := []; h_pos := 0; h_fill := 0; h_cl := 0 |}.
+
+(* (what the layers above and below see, liveness) after the whole stream [T] *)
+Definition http_spec (q : list (list Z)) (T : list Z) : list obs * Z :=
+  match fst (aparse (big HT_INIT T) HT_INIT 0 T) with
+  | ANeed _ _ _ => ([], 0)
+  | AErr => ([], 1)
+  | AConn _ rest => (map ODn q ++ map OByte rest, 0)
+  | AFuel => ([], 2)
+  end.
+
+Definition Inv (q : list (list Z)) (T : list Z) (w : wst hst) (e : list ev) : Prop :=
+  exists r0, aparse (big HT_INIT T) HT_INIT 0 T = (r0, false) /\ spec_ok q r0 w e.
+
+Lemma Inv_start q : Inv q [] (alive (http_start q)) [].
+Proof.
+  exists (ANeed HT_INIT 0 []). split; [reflexivity|]. simpl.
+  refine (conj eq_refl (conj _ (conj eq_refl (conj eq_refl (conj (or_introl eq_refl) (conj eq_refl eq_refl)))))).
+  unfold hs_inv, hinv, http_start; simpl. rewrite lenZ_nil0. repeat split; auto; try lia; try discriminate.
+Qed.
+
+Lemma Inv_feed G q T w e0 c w' e' : Inv q T w e0 -> feed (http_body G) w c = (w', e') -> clean e' = true ->
+  Inv q (T ++ c) w' (e0 ++ e').
+Proof.
+  intros (r0 & AP & OK) FD CL. unfold Inv.
+  assert (Z00 : 0 <= 0) by lia.
+  pose proof (aparse_stable _ _ _ _ _ Z00 AP) as ST.
+  destruct r0 as [st' cl' U'| |c0 rest|]; simpl in OK; try contradiction.
+  - destruct OK as (D0 & HS & S1 & S3 & AQ & Q & V0).
+    specialize (ST ltac:(discriminate) c (big HT_INIT (T ++ c)) (big_suff _ _)). cbv beta iota in ST.
+    unfold feed in FD. rewrite D0 in FD. change (0 =? 0) with true in FD. cbv iota in FD.
+    destruct c as [|x c'].
+    + simpl in FD. inversion FD; subst w' e'. rewrite !app_nil_r.
+      exists (ANeed st' cl' U'). split; [exact AP|]. simpl.
+      refine (conj eq_refl (conj HS (conj S1 (conj S3 (conj AQ (conj Q V0)))))).
+    + assert (NK : x :: c' <> []) by discriminate.
+      destruct (drain_conc G (length (x :: c')) (x :: c') (le_n _) NK (inner w) _ w' e' HS (le_n _) FD CL
+                  (big st' (U' ++ x :: c')) ltac:(rewrite S1, S3; apply big_suff)) as (r1 & AP1 & OK1).
+      rewrite S1, S3 in AP1.
+      specialize (ST (big st' (U' ++ x :: c')) (big_suff _ _)).
+      pose proof (aparse_insens (big st' (U' ++ x :: c')) st' (h_cl (inner w)) cl' (U' ++ x :: c') (aeq_ext _ _ _ _ _ AQ)) as INS.
+      rewrite AP1 in INS.
+      pose proof (rrel_trans _ _ _ ST (rrel_sym _ _ INS)) as RR.
+      destruct (aparse (big HT_INIT (T ++ x :: c')) HT_INIT 0 (T ++ x :: c')) as [r2 b2] eqn:AP2.
+      assert (b2 = false) by (destruct RR as [X _]; exact X). subst b2.
+      exists r2. split; [reflexivity|].
+      rewrite Q in OK1. pose proof (spec_ok_rrel _ _ _ _ _ RR OK1) as OK2.
+      destruct r2 as [a1 a2 a3| |a1 a2|]; simpl in *; auto.
+      * destruct OK2 as (B1 & B2 & B3 & B4 & B5 & B6 & B7).
+        refine (conj B1 (conj B2 (conj B3 (conj B4 (conj B5 (conj B6 _)))))). rewrite vis_app, V0, B7. reflexivity.
+      * destruct OK2 as (B1 & B7). split; auto. rewrite vis_app, V0, B7. reflexivity.
+      * destruct OK2 as (B1 & B2 & B3 & B4 & B7).
+        refine (conj B1 (conj B2 (conj B3 (conj B4 _)))). rewrite vis_app, V0, B7. reflexivity.
+  - destruct OK as (D1 & V0).
+    specialize (ST ltac:(discriminate) c (big HT_INIT (T ++ c)) (big_suff _ _)). cbv beta iota in ST.
+    unfold feed in FD. rewrite D1 in FD. change (1 =? 0) with false in FD. cbv iota in FD. inversion FD; subst w' e'.
+    exists AErr. split; [exact ST|]. simpl. rewrite app_nil_r. auto.
+  - destruct OK as (D0 & SC & BS & HI & V0).
+    specialize (ST ltac:(discriminate) c (big HT_INIT (T ++ c)) (big_suff _ _)). cbv beta iota in ST.
+    unfold feed in FD. rewrite D0 in FD. change (0 =? 0) with true in FD. cbv iota in FD.
+    destruct (http_connected_transparent G (inner w) SC BS _ _ _ _ (le_n _) FD) as [-> V1].
+    exists (AConn c0 (rest ++ c)). split; [exact ST|]. simpl.
+    refine (conj eq_refl (conj SC (conj BS (conj HI _)))).
+    rewrite vis_app, V0, V1, map_app, app_assoc. reflexivity.
+Qed.
+
+Lemma Inv_run G q : forall cs T w e0, Inv q T w e0 -> clean (snd (run (http_body G) w cs)) = true ->
+  Inv q (T ++ concat cs) (fst (run (http_body G) w cs)) (e0 ++ snd (run (http_body G) w cs)).
+Proof.
+  induction cs as [|c cs IH]; intros T w e0 I CL; simpl in *.
+  - rewrite !app_nil_r. exact I.
+  - destruct (feed (http_body G) w c) as [w1 e1] eqn:FD. destruct (run (http_body G) w1 cs) as [w2 e2] eqn:RN. simpl in *.
+    rewrite clean_app in CL. apply andb_true_iff in CL as [C1 C2].
+    pose proof (Inv_feed G q T w e0 c w1 e1 I FD C1) as I1.
+    specialize (IH (T ++ c) w1 (e0 ++ e1) I1). rewrite RN in IH. simpl in IH.
+    rewrite <- !app_assoc in IH. apply IH. exact C2.
+Qed.
+
+(** every clean delivery of a stream, however it is cut, shows exactly what the specification says *)
+Theorem http_seg_independent G q cs :
+  clean (snd (run (http_body G) (alive (http_start q)) cs)) = true ->
+  vis vis_str (snd (run (http_body G) (alive (http_start q)) cs)) = fst (http_spec q (concat cs)) /\
+  dead (fst (run (http_body G) (alive (http_start q)) cs)) = snd (http_spec q (concat cs)).
+Proof.
+  intros CL. pose proof (Inv_run G q cs [] _ [] (Inv_start q) CL) as (r0 & AP & OK).
+  simpl app in *. unfold http_spec. rewrite AP. simpl fst.
+  destruct r0 as [a1 a2 a3| |a1 a2|]; simpl in *.
+  - destruct OK as (B1 & _ & _ & _ & _ & _ & B7). auto.
+  - destruct OK as (B1 & B7). auto.
+  - destruct OK as (B1 & _ & _ & _ & B7). auto.
+  - contradiction.
 Qed.
